@@ -254,6 +254,9 @@ func (t *T) Transitions(n int) { t.c.Transitions(n) }
 func (t *T) Validated(n int)   { t.c.Validated(n) }
 func (t *T) NonTrivial()       { t.c.NonTrivial() }
 
+// Alive tells the watchdog that a long case is making progress (the hang deadline is for cases that stop).
+func (t *T) Alive() { atomic.AddInt64(&t.c.progress, 1) }
+
 // Poison tells the engine that the process state cannot be reset after this case (a deadlock leaves goroutines
 // parked inside the library holding its locks): the case is not re-run for confirmation and the worker runs no
 // further cases.
